@@ -78,7 +78,116 @@ CLAIMED = {
         "DESIGN.md section 5 C09"),
 }
 
-PENDING_REASON = "check not built yet (work in progress; see DESIGN.md section 9)"
+V2TB = ("Trusted: Coq kernel; hand models Model/HasherV2.v tied to hasher.py by differential execution (extracted OCaml vs the real classes; "
+        "exhaustive small scopes with BLOCK_SIZE patched to 4/3/1 in the thorough tier, theorems hold for every B); Spec/Bep52.v cross-checked "
+        "against the oracle's two independent BEP 52 formulations; extraction and the OCaml SHA functions for the correspondence only; OS reads.")
+RCTB = ("Trusted: Coq kernel; hand models Model/Recheck.v, Model/HasherV2.v tied to recheck.py/hasher.py by differential execution of whole "
+        "traces; the step from exact integers to the IEEE double (x/x*100 == 100.0; matched<consumed<2^53 gives < 100) is argued, not formalised, "
+        "and asserted on every evaluated case; the mapping of metafile entries to disk paths (find_root/check_paths) is exercised end to end, not modelled.")
+RBTB = ("Trusted: Coq kernel; hand models Model/Rebuild.v, Model/CopyPath.v, Model/PathSafe.v tied to rebuild.py / utils.copypath by differential "
+        "execution; the reference verifier/encoder (harness/ref/oracle.py); OS file operations on regular files; no symbolic links; no concurrent writer.")
+CLAIMED.update({
+    "C02": (
+        "Coq proof (merkle tree lemmas; the three v2 hashers' models equal an independent BEP 52 specification) + extracted-model correspondence + oracle search",
+        "Machine-checked proof, for every SHA-256 function, every block size B > 0, every piece length B*2^k and every file content of any length, that "
+        "the models of HasherV2, HasherHybrid and FileHasher (one Gallina function per method of hasher.py) return exactly the BEP 52 merkle root "
+        "(leaf hashes of the B-byte blocks, zero-hash padding to the next power of two, balanced tree) and exactly the piece layer restricted to the "
+        "nodes that cover data (ceil(len/pl) hashes, padding omitted; a one-piece file's layer is its root), that merkle_root on 2^k hashes is the tree "
+        "root and next_power_2 the least power of two.  PARTIAL at the creator level: the file-tree/piece-layers dictionary theorems of "
+        "Proofs/CreatorsProofs2.v (tree mirrors disk, one layer entry per file larger than a piece, none for others) are proved about Model/Creators.v, "
+        "whose tie to torrent.py is the end-to-end comparison of written metafiles with the reference oracle, not a unit correspondence.",
+        V2TB, "DESIGN.md section 5 C02"),
+    "C03": (
+        "Coq proof (hybrid hashers: v1 inputs = file followed by zeros to the piece boundary; pad length = the gap; v2 side = BEP 52) + extracted-model correspondence + oracle search",
+        "Machine-checked proof, for all hash functions, B > 0, pl = B*2^k and file contents, that HasherHybrid and FileHasher(hybrid) feed SHA-1 exactly "
+        "the pl-slices of the file followed by zeros up to the next piece boundary (directory payload) or of the file alone (single-file payload), that "
+        "the padding entry length is exactly that gap (none when the file ends on a boundary or is single), that the v2 root and layer of the same call "
+        "are the BEP 52 values of the same bytes, and that the two hybrid hashers return identical results.  Creator level (file order, pad entries "
+        "marked attr=p path .pad/<n>, pieces hash that stream, single file) proved about Model/Creators.v and searched end to end against the oracle.",
+        V2TB, "DESIGN.md section 5 C03"),
+    "C04": (
+        "Coq proof (exactness of both checker models against a zero-fill specification; one differing digest forces matched < consumed = total) + trace correspondence + damage search",
+        "Machine-checked proof, for all hash functions, layouts, piece lengths and disk states no longer than recorded, that the models of FeedChecker "
+        "(v1) and HashChecker (v2/hybrid) produce, piece by piece, exactly the specification trace over the zero-filled layout, so that a single piece "
+        "whose digest differs from the recorded one (visible premise piece_differs: collision resistance, not an axiom) forces matched < consumed = total, "
+        "and that damage outside all-zero regions changes some zero-filled piece.  Tie: whole traces of Checker.iter_hashes vs the extracted models "
+        "(every single damage of every small layout in the thorough tier); search: generated trees x 9 metafile kinds x damage sets through the library and the CLI.",
+        RCTB, "DESIGN.md section 5 C04"),
+    "C05": (
+        "Coq proof (intact disk => every piece of both checker models verifies; FileHasher reproduces BEP 52 roots/layers) + trace correspondence + oracle search",
+        "Machine-checked proof that for an intact disk state and recorded hashes equal to BEP 3 piece hashes (v1) / BEP 52 roots and layers (v2, hybrid) "
+        "both checker models report matched = consumed = total > 0, for every layout (empty files anywhere), piece length and hash function.  Tie as C16; "
+        "search: every metafile kind incl. reference-encoded v2 without info.length and hybrid without trailing pad, through payload root and parent "
+        "directory, library and CLI.  Known finding D33 (parent directory named like the payload) is reported as KNOWN-FINDING.",
+        RCTB, "DESIGN.md section 5 C05"),
+    "C06": (
+        "Coq proof (strict recogniser <-> encoder image on key-sorted values; decoders agree; edit preserves canonical form) + extracted-model correspondence vs pyben and a strict reference decoder",
+        "Machine-checked proof that the executable strict recogniser canonical_bytes accepts exactly the encodings of values whose dictionaries are "
+        "strictly key-sorted at every depth, that encoding is injective, that the lenient decoder (model of pyben) and the strict one agree on canonical "
+        "bytes, that sort_keys yields canonical values, and that the edit model keeps a canonical metafile canonical with a sorted top level; canon and "
+        "structure_ok of the value each creator model writes (all six creators, all option subsets) are proved in Proofs/CreatorsProofs2.v.  Tie: "
+        "extracted bencode model vs pyben and vs the oracle's strict decoder on generated/mutated byte strings; search: written and edited metafiles "
+        "(library and CLI) must pass the strict decoder and the version's structure rules.",
+        "Trusted: Coq kernel; hand model of pyben 0.3.2 (dependency, not in /repo); str/bytes collapsed to raw bytes; Model/Creators.v tied end to end only.",
+        "DESIGN.md section 5 C06"),
+    "C07": (
+        "Coq proof (frame theorems of the edit model; info value and hence info-hash unchanged; history = last writes; file round trip) + exhaustive shape-space correspondence",
+        "Machine-checked proof, for every decoded metafile with the tool's layout, every request (Keep/Clear/Set per field) and every history of requests, "
+        "that the model of edit_torrent changes no top-level key and no info key outside the named fields, leaves the info value (hence its encoding and "
+        "both info-hashes) identical when no info field is named, makes named fields take effect, equals the last-write summary over any history, and "
+        "that encode/decode round-trips the file.  Tie: all 3^6 requests x 12 base metafiles through edit_torrent (bytes equal to the extracted model's) "
+        "and the CLI.  Known finding D11 (foreign layout) is reported as KNOWN-FINDING; C07_layout_needed shows the guard is necessary.",
+        "Trusted: Coq kernel; hand models Model/Edit.v, Model/Bencode.v (pyben); str.split on ASCII whitespace; argparse mapping exercised end to end.",
+        "DESIGN.md section 5 C07"),
+    "C10": (
+        "Coq proof (the three hasher models return identical roots, layers, v1 inputs and pad lengths for every file) + extracted-model correspondence + creator-pair comparison",
+        "Machine-checked proof, for all hash functions, B > 0, pl = B*2^k and every file (the empty one included), that HasherV2, HasherHybrid and FileHasher "
+        "(both modes, iterated to exhaustion as TorrentAssembler drives it) agree on root and piece layer, and the two hybrid-capable ones on v1 piece inputs "
+        "and padding, and that the iterator yields what it stores; Proofs/CreatorsProofs.v proves the assembler and class-based creator models equal.  Tie: "
+        "field-by-field comparison of the real classes with each other and with their extracted models; creator pairs (TorrentAssembler vs TorrentFileV2 / "
+        "TorrentFileHybrid vs CLI) must write identical info dictionaries and piece layers on generated trees.",
+        V2TB, "DESIGN.md section 5 C10"),
+    "C13": (
+        "Coq proof (piece map exactness and coverage; soundness and completeness of the candidate search) + extracted-model correspondence + scattered-rebuild search judged by a reference verifier",
+        "Machine-checked proof, for every piece length > 0 and list of file lengths, that the model of Metadata._map_pieces assigns to piece i exactly the "
+        "byte ranges whose concatenation is the i-th pl-slice of the concatenated files and covers every non-empty file; that the model of "
+        "PieceNode._find_matches succeeds iff some choice of same-name same-size candidates hashes to the recorded digest and then copies exactly that "
+        "choice; that pieces skipped by the `copied` shortcut already have their file copied.  PARTIAL: completeness of the whole v1 run needs "
+        "candidates_clean (known finding D27); the v2 route (_match_v2) has no Coq model and is covered end to end only.  Known findings D27, D28 are "
+        "reported as KNOWN-FINDING.",
+        RBTB, "DESIGN.md section 5 C13"),
+    "C14": (
+        "Coq proof (frame, idempotence and no-shrink theorems of the copypath model on an abstract filesystem; copies only for verified choices) + filesystem correspondence + snapshot search",
+        "Machine-checked proof, for every abstract filesystem, source and destination, that the model of utils.copypath changes nothing but the destination "
+        "and ancestor directories that did not exist (also when it raises half way), leaves a destination that is a directory or at least as long as the "
+        "source untouched, never alters the source, is idempotent, and that a v1 rebuild calls copypath only with same-name same-size candidates of a "
+        "choice whose bytes hash to the recorded digest, never on a failed search.  Tie: copypath on real small filesystems vs the extracted model (state "
+        "of every path), match_v1 call sequences; search: full snapshots of search roots, metafiles and pre-populated destinations, repeated rebuilds.",
+        RBTB + " sys.addaudithook reports every mutation Python code performs (cross-checked against snapshots each run).", "DESIGN.md section 5 C14"),
+    "C16": (
+        "Coq proof (both checker models = zero-fill specification trace; matched/consumed are the exact sums; locality) + whole-trace correspondence + reference verifier",
+        "Machine-checked proof, for all hash functions, layouts, piece lengths and disk states within the recorded lengths, that FeedChecker's and "
+        "HashChecker's models yield exactly one entry per recorded piece with the specification's digest and size (full pieces pl, last piece the "
+        "remainder; per file for v2), that Checker.iter_hashes' matched and consumed are the sums of matching and of all sizes, consumed = total, the "
+        "result is their ratio, 100 iff every piece verifies, and that a piece's verdict depends only on its own byte range.  Tie: every trace entry and "
+        "the returned float vs the extracted models (every single damage of every small layout in the thorough tier); search: the reference verifier's "
+        "matched/total on generated trees, 9 metafile kinds, multi-damage sets.",
+        RCTB, "DESIGN.md section 5 C16"),
+    "C19": (
+        "Coq proof (lexical resolution of validated components stays under the destination; validator = forall safe_comp) + extracted-model correspondence + hostile-metafile search",
+        "Machine-checked proof that for every destination and every list of path elements accepted by the model of Metadata._check_parts (not '', '.', "
+        "'..', no separator, no NUL) the lexically resolved target is the destination extended by exactly those elements, hence inside it; that a list "
+        "with any unsafe element is refused before anything is written; and that without the validator the statement is false (witness).  Tie: "
+        "_check_parts vs safe_comp and normpath(join) vs resolve on all generated sequences; search: all hostile sequences of <= 3 (quick) / 4 (thorough) "
+        "elements in v1 paths, v2 tree keys and names with matching candidates present, snapshotting everything outside the destination.",
+        RBTB + " Lexical resolution only: symbolic links already inside the destination are outside the theorem.", "DESIGN.md section 5 C19"),
+})
+
+PENDING = {
+    "C08": "work in progress, not a limit of the technique: the enumeration-irrelevance theorems exist (Proofs/CreatorsProofs.v) but Props/C08.v, the unit tie of Model/Creators.v and the metamorphic harness are not registered yet",
+    "C11": "work in progress, not a limit of the technique: Props/C11.v is proved (Model/Magnet.v, Model/Uri.v) but the correspondence harness is not registered yet",
+    "C20": "work in progress, not a limit of the technique: the CLI/config translators and the argparse slice model are not built yet",
+}
 
 
 def main():
@@ -121,7 +230,7 @@ def main():
         }],
         "checks": checks,
         "notes": "Fix commits in /repo (unguarded, 'fix:') and known findings are listed in /verif/known_findings.json and DESIGN.md section 6.",
-        "not_applicable": [{"property_id": p, "reason": PENDING_REASON} for p in props if p not in [c["property_id"] for c in checks]],
+        "not_applicable": [{"property_id": p, "reason": PENDING.get(p, "check not built yet")} for p in props if p not in [c["property_id"] for c in checks]],
     }
     with open(os.path.join(VERIF, "MANIFEST.json"), "w") as fd:
         json.dump(man, fd, indent=1)
